@@ -29,7 +29,29 @@ static COUNTER: AtomicU64 = AtomicU64::new(0);
 pub const SIG_NESTED_LIST: &str = "normalize-exception:list-of-lists-of-objects";
 pub const SIG_POINTER_ARGS: &str = "missing-data:client-pointer-selected-with-arguments";
 pub const SIG_EMPTY_LINKED: &str = "missing-data:linked-field-without-server-selections";
+pub const SIG_OMITTED_IN_OBJECT: &str = "missing-data:omitted-variable-inside-object-argument";
 pub const SIG_DEFAULT_VALUE: &str = "missing-data:client-field-variable-default-value-not-applied-when-reading";
+
+/// Evidence samples chosen deterministically although cases run on parallel workers: per kind the
+/// candidate with the smallest hash wins; `flush` hands them to the report at the end.
+#[derive(Default)]
+pub struct DetSamples(std::sync::Mutex<std::collections::BTreeMap<String, (u64, Value)>>);
+
+impl DetSamples {
+    pub fn offer(&self, kind: &str, hash: u64, make: impl FnOnce() -> Value) {
+        let mut g = self.0.lock().unwrap();
+        if g.get(kind).is_none_or(|(h, _)| hash < *h) {
+            g.insert(kind.to_string(), (hash, make()));
+        }
+    }
+    pub fn flush(&self, report: &Report) {
+        for (k, (_, v)) in self.0.lock().unwrap().iter() {
+            report.sample(k, 1, || v.clone());
+        }
+    }
+}
+
+pub static SAMPLES: std::sync::LazyLock<DetSamples> = std::sync::LazyLock::new(DetSamples::default);
 
 thread_local! {
     static SESSION: RefCell<Option<NodeSession>> = const { RefCell::new(None) };
@@ -156,7 +178,7 @@ pub fn case_of(s: &C10Spec, ex: &Exclusions) -> cases::Case {
 
 fn has_list_of_lists_of_objects(v: &Value) -> bool {
     match v {
-        Value::Array(a) => a.iter().any(|x| matches!(x, Value::Array(inner) if inner.iter().any(|y| y.is_object() || y.is_array())) || has_list_of_lists_of_objects(x)),
+        Value::Array(a) => a.iter().any(|x| x.is_array() || has_list_of_lists_of_objects(x)),
         Value::Object(m) => m.values().any(has_list_of_lists_of_objects),
         _ => false,
     }
@@ -198,6 +220,10 @@ fn refine_signature(mut f: Fail, files: &Rendered, response: &Value, ep: &Entryp
         f.signature = SIG_POINTER_ARGS.into();
         return f;
     }
+    if f.signature.starts_with("missing-data:") && f.message.contains("\"null\"") && reader_stats(&ep.reader_ast).resolvers_omitting_a_variable_used_in_object > 0 {
+        f.signature = SIG_OMITTED_IN_OBJECT.into();
+        return f;
+    }
     if f.signature.starts_with("missing-data:") && reader_stats(&ep.reader_ast).resolvers_omitting_a_variable > 0 && declares_variable_default(files) {
         f.signature = SIG_DEFAULT_VALUE.into();
         return f;
@@ -234,7 +260,7 @@ pub fn run_program(files: &Rendered, declared: &[String], rtape: &[u16], respons
             Ok(ep) => ep,
             Err(e) => {
                 report.label("skipped-entrypoint:artifact-graph-not-linkable");
-                report.sample("unlinkable-entrypoint", 2, || json!({"error": e.0}));
+                SAMPLES.offer("unlinkable-entrypoint", vcore::hash_of(&e.0), || json!({"error": e.0}));
                 continue;
             }
         };
@@ -246,6 +272,10 @@ pub fn run_program(files: &Rendered, declared: &[String], rtape: &[u16], respons
         let rs = reader_stats(&ep.reader_ast);
         if rs.pointers_with_arguments > 0 && known(SIG_POINTER_ARGS) {
             report.excluded(SIG_POINTER_ARGS);
+            continue;
+        }
+        if rs.resolvers_omitting_a_variable_used_in_object > 0 && known(SIG_OMITTED_IN_OBJECT) {
+            report.excluded(SIG_OMITTED_IN_OBJECT);
             continue;
         }
         if rs.resolvers_omitting_a_variable > 0 && declares_variable_default(files) && known(SIG_DEFAULT_VALUE) {
@@ -264,7 +294,7 @@ pub fn run_program(files: &Rendered, declared: &[String], rtape: &[u16], respons
                     // not valid GraphQL / not matching the schema: C09's property, not this one
                     let why = if text.contains("l_-") { "operation-not-parsable(negative-int-alias,C12)" } else { "operation-not-usable(C09)" };
                     report.label(&format!("skipped-entrypoint:{why}"));
-                    report.sample("unusable-operation", 2, || json!({"error": e, "operation": text}));
+                    SAMPLES.offer("unusable-operation", vcore::hash_of(&text), || json!({"error": e, "operation": text}));
                     break;
                 }
             };
@@ -420,7 +450,9 @@ pub fn run(args: &Args) {
                 report.case(if r.nontrivial && r.reads > 0 { Some(&key) } else { None }, &l);
                 report.label_n("entrypoints-read", r.entrypoints as u64);
                 report.label_n("responses-normalized-and-read", r.reads as u64);
-                report.sample(case.tier, 1, || json!({"tier": case.tier, "files": case.rendered.files}));
+                if r.reads > 0 {
+                    SAMPLES.offer(case.tier, vcore::hash_of(&key), || json!({"tier": case.tier, "files": case.rendered.files}));
+                }
                 match r.failure {
                     Some((f, _)) => Err(f),
                     None => Ok(()),
@@ -436,5 +468,7 @@ pub fn run(args: &Args) {
         };
         report.violation("programs", &fail, input);
     }
+    report.unfreeze();
+    SAMPLES.flush(&report);
     report.finish();
 }
